@@ -34,7 +34,8 @@ def strategy(draw):
                     perm_seed=draw(gen.seeds32), shift=[draw(gen.floats(-1e4, 1e4)), draw(gen.floats(-1e4, 1e4))], k=draw(st.sampled_from([-3, -1, 1, 4]))),
         mc=dict(m=draw(st.integers(2, 8)), seed=draw(gen.seeds32), dist_gen=draw(gen.choice(["lognormal", "normal"])),
                 dist_sp=draw(gen.choice(["normal", "lognormal", "lognormal", "normal"])), n_real=draw(st.one_of(st.integers(1, 30), st.integers(1, 400))),
-                rng_seed=draw(st.integers(0, 2 ** 31 - 1)), wscale=draw(st.sampled_from([0.5, 3.0, 7.3, 100.0])), equal=draw(gen.chance(5))))
+                rng_seed=draw(st.integers(0, 2 ** 31 - 1)), wscale=draw(st.sampled_from([0.5, 3.0, 7.3, 100.0])), equal=draw(gen.chance(5)),
+                wtype=draw(gen.choice(["float64", "list", "int64", "int32-large", "uint16", "float64", "float32"]))))
 
 
 def expand_layout(L):
@@ -229,8 +230,24 @@ def check_mc(hv, M, labels):
         means = g.normal(0.3, 0.6, size=m)
         sds = g.uniform(0.02, 0.4, size=m)
     wts = np.ones(m) if M["equal"] else g.uniform(0.1, 2.0, size=m)
+    # storage of the weights as handed in (areas in m^2 or counts are often integers); the reference uses their values
+    wt = M.get("wtype", "float64")
+    if wt == "list":
+        wts_in = [float(v) for v in wts]
+    elif wt == "int64":
+        wts_in = np.round(wts * 10).astype(np.int64) + 1
+    elif wt == "int32-large":
+        wts_in = (np.round(wts * 40000).astype(np.int32) + 50000)
+    elif wt == "uint16":
+        wts_in = (np.round(wts * 20000).astype(np.uint16) + 300)
+    elif wt == "float32":
+        wts_in = wts.astype(np.float32)
+    else:
+        wts_in = wts
+    wts = np.asarray(wts_in, dtype=np.float64)
+    RT = 1e-10 if wt != "float32" else 1e-5       # single-precision weights are normalised in single precision
     args = dict(distribution_generators=M["dist_gen"], distribution_spatial=M["dist_sp"], n_realizations=M["n_real"])
-    mean, sd, x = sut(hv.montecarlo_fn, means, sds, wts, rng=np.random.default_rng(M["rng_seed"]), what="montecarlo_fn", **args)
+    mean, sd, x = sut(hv.montecarlo_fn, means, sds, wts_in, rng=np.random.default_rng(M["rng_seed"]), what="montecarlo_fn", **args)
     x = np.asarray(x, dtype=float)
     require(x.shape == (m, M["n_real"]), f"realisations have shape {x.shape}, expected {(m, M['n_real'])}")
     require(np.all(np.isfinite(x)) and (M["dist_sp"] == "normal" or np.all(x > 0)), "non-finite / non-positive realisations returned")
@@ -238,28 +255,29 @@ def check_mc(hv, M, labels):
     om = np.repeat(wts / wts.sum() / M["n_real"], M["n_real"]).reshape(X.shape)
     mm = float(np.sum(om * X))
     want_mean = math.exp(mm) if M["dist_sp"] == "lognormal" else mm
-    if not close(mean, want_mean, rtol=1e-10):
+    if not close(mean, want_mean, rtol=RT):
         raise Violation(f"Monte-Carlo mean ({M['dist_gen']} generators, {M['dist_sp']} spatial) is {mean!r}, the weighted mean of the returned realisations is {want_mean!r}")
     if M["n_real"] * m >= 2:
         denom = 1.0 - float(np.sum(om ** 2))
         ss = math.sqrt(float(np.sum(om * (X - mm) ** 2)) / denom)
-        if not close(sd, ss, rtol=1e-9, atol=1e-14):
+        if not close(sd, ss, rtol=max(RT, 1e-9), atol=1e-14):
             raise Violation(f"Monte-Carlo standard deviation ({M['dist_gen']}/{M['dist_sp']}) is {sd!r}, the weighted standard deviation of the returned realisations is {ss!r}")
     # weights x constant
     mean2, sd2, x2 = sut(hv.montecarlo_fn, means, sds, wts * M["wscale"], rng=np.random.default_rng(M["rng_seed"]), what="montecarlo_fn", **args)
-    require(close(mean2, mean, rtol=1e-12) and close(sd2, sd, rtol=1e-10, atol=1e-14) and same_bits(x2, x), f"multiplying all weights by {M['wscale']} changes the statistics")
+    require(close(mean2, mean, rtol=max(RT, 1e-12)) and close(sd2, sd, rtol=RT, atol=1e-14) and same_bits(x2, x), f"multiplying all weights by {M['wscale']} changes the statistics")
     # reproducible for a given generator
-    mean3, sd3, x3 = sut(hv.montecarlo_fn, means, sds, wts, rng=np.random.default_rng(M["rng_seed"]), what="montecarlo_fn", **args)
+    mean3, sd3, x3 = sut(hv.montecarlo_fn, means, sds, wts_in, rng=np.random.default_rng(M["rng_seed"]), what="montecarlo_fn", **args)
     require(mean3 == mean and sd3 == sd and same_bits(x3, x), "same random generator state gives different results")
     # zero generating standard deviations -> closed form
-    mean0, sd0, x0 = sut(hv.montecarlo_fn, means, np.zeros(m), wts, rng=np.random.default_rng(M["rng_seed"]), what="montecarlo_fn", **args)
+    mean0, sd0, x0 = sut(hv.montecarlo_fn, means, np.zeros(m), wts_in, rng=np.random.default_rng(M["rng_seed"]), what="montecarlo_fn", **args)
     nat = np.exp(means) if M["dist_gen"] == "lognormal" else means
     require(close(np.asarray(x0), np.repeat(nat[:, None], M["n_real"], axis=1), rtol=1e-12), "with zero standard deviations the realisations are not the generator means in natural units")
     wn = wts / wts.sum()
     cf = math.exp(float(np.sum(wn * np.log(nat)))) if M["dist_sp"] == "lognormal" else float(np.sum(wn * nat))
-    if not close(mean0, cf, rtol=1e-12):
+    if not close(mean0, cf, rtol=max(RT, 1e-12)):
         raise Violation(f"zero standard deviations ({M['dist_gen']}/{M['dist_sp']}): mean {mean0!r}, closed-form weighted {'log-' if M['dist_sp'] == 'lognormal' else ''}mean {cf!r}")
     labels.append(f"mc:{M['dist_gen']}/{M['dist_sp']}")
+    labels.append(f"weights:{wt}")
     return (not M["equal"]) and float(np.ptp(means)) > 0
 
 
